@@ -1,10 +1,11 @@
 // C01: no host-level crash: every program ends in a syntax error report, a value or a Pangaea error.
 // Four layers, one target (interp.Run / EvalNode under an evaluation budget, recover() + outcome classification):
-//   A text layer: token soup and token-level mutations of the repository corpus (native fuzzing in thorough),
-//   B built-in surface: bounded-exhaustive receiver x property x argument sweep built as AST (no parse),
-//     with a consumer battery applied to results,
-//   C chaotic programs from a grammar with hostile values and jump statements in odd places,
-//   D entry points: runscript.RunSource, the REPL and the built command line.
+//
+//	A text layer: token soup and token-level mutations of the repository corpus (native fuzzing in thorough),
+//	B built-in surface: bounded-exhaustive receiver x property x argument sweep built as AST (no parse),
+//	  with a consumer battery applied to results,
+//	C chaotic programs from a grammar with hostile values and jump statements in odd places,
+//	D entry points: runscript.RunSource, the REPL and the built command line.
 package c01
 
 import (
@@ -264,7 +265,7 @@ type BCase struct {
 	Args   []string `json:"args"`
 	Kwarg  string   `json:"kwarg,omitempty"`
 	KwVal  string   `json:"kwval,omitempty"`
-	Chain  string   `json:"chain"`             // ".", "@", "$", "&.", "~@", ...  or "infix" / "index"
+	Chain  string   `json:"chain"`              // ".", "@", "$", "&.", "~@", ...  or "infix" / "index"
 	Consum string   `json:"consumer,omitempty"` // source template over `res`
 }
 
